@@ -744,7 +744,7 @@ func (p *PolicyManager) SyncPodIPInIPSet(pod *corev1.Pod, add bool) {
 		if policy.np.Namespace == pod.Namespace && podLabelSelector.Matches(labels.Set(pod.Labels)) {
 			if policy.ingressRule != nil {
 				p.addOrDelIPSetEntry(add, &policy.ingressRule.dstIPTable.IPSet, pod.Status.PodIP)
-			} else {
+			} else if policy.egressRule != nil {
 				p.addOrDelIPSetEntry(add, &policy.egressRule.srcIPTable.IPSet, pod.Status.PodIP)
 			}
 		}
@@ -755,7 +755,14 @@ func (p *PolicyManager) SyncPodIPInIPSet(pod *corev1.Pod, add bool) {
 
 // #lizard forgives
 func (p *PolicyManager) syncIngressInIPSet(policy *policy, pod *corev1.Pod, add bool) {
+	if policy.ingressRule == nil {
+		// policyTypes doesn't include Ingress, ingress rules of the spec are not compiled
+		return
+	}
 	for i, ingress := range policy.np.Spec.Ingress {
+		if i >= len(policy.ingressRule.srcRules) || policy.ingressRule.srcRules[i].ipTable == nil {
+			continue
+		}
 		for _, peer := range ingress.From {
 			if peer.PodSelector != nil {
 				peerPodLabelSelector, err := v1.LabelSelectorAsSelector(peer.PodSelector)
@@ -786,7 +793,14 @@ func (p *PolicyManager) syncIngressInIPSet(policy *policy, pod *corev1.Pod, add 
 
 // #lizard forgives
 func (p *PolicyManager) syncEgressInIPSet(policy *policy, pod *corev1.Pod, add bool) {
+	if policy.egressRule == nil {
+		// policyTypes doesn't include Egress, egress rules of the spec are not compiled
+		return
+	}
 	for i, egress := range policy.np.Spec.Egress {
+		if i >= len(policy.egressRule.dstRules) || policy.egressRule.dstRules[i].ipTable == nil {
+			continue
+		}
 		for _, peer := range egress.To {
 			if peer.PodSelector != nil {
 				peerPodLabelSelector, err := v1.LabelSelectorAsSelector(peer.PodSelector)
